@@ -7,32 +7,59 @@ import (
 	"os"
 	"sync"
 	"syscall"
+	"time"
 )
 
 var errCut = errors.New("harness: trunk cut")
 
 // recConn is the trunk handed to a Mux: it records every byte that really went
 // out (tee of the trunk), optionally fails after a byte budget (a trunk cut at an
-// exact byte offset), and makes net.Pipe report a locally closed connection the
-// way a socket does (net.ErrClosed instead of io.ErrClosedPipe).
+// exact byte offset), makes the in-memory pipe report a locally closed connection
+// the way a socket does (net.ErrClosed instead of io.ErrClosedPipe), and lets the
+// harness see when the Mux closes its trunk.
+//
+// A cut fails the outgoing direction only, the way a trunk truncated on its way to the
+// peer does: the Write that crosses the budget returns (n, error) with the n bytes that
+// still went out.  When n != 0 the Mux has to latch the error and close the trunk
+// itself — that is what ends the peer's input; the wrapper does nothing more, so that a
+// Mux that fails to close shows.  When n == 0 the Mux stays open by design and the
+// wrapper shuts the write direction down (shutdown(SHUT_WR)) so that the peer sees the
+// stream end at that offset.  The local reader is never woken by the wrapper: which
+// error gets latched does not depend on a race between it and the failing Write.
 type recConn struct {
 	net.Conn
-	mu     sync.Mutex
-	log    []byte
-	budget int // bytes that may still be written; <0 = unlimited
-	broken bool
-	keep   bool // keep the bytes (false: only count them)
-	count  int
+	mu      sync.Mutex
+	log     []byte
+	budget  int // bytes that may still be written; <0 = unlimited
+	broken  bool
+	keep    bool // keep the bytes (false: only count them)
+	count   int
+	once    sync.Once
+	closedC chan struct{} // closed when the Mux calls Close on its trunk
 }
 
 func newRec(c net.Conn, budget int) *recConn {
-	r := &recConn{Conn: c, budget: budget, keep: true}
+	r := &recConn{Conn: c, budget: budget, keep: true, closedC: make(chan struct{})}
 	if budget == 0 {
-		// nothing may be written at all: the trunk is already down
+		// nothing may be written at all: the outgoing direction is already down
 		r.broken = true
-		c.Close()
+		r.halfClose()
 	}
 	return r
+}
+
+func (r *recConn) halfClose() {
+	if hc, ok := r.Conn.(interface{ CloseWrite() error }); ok {
+		hc.CloseWrite()
+		return
+	}
+	r.Conn.Close()
+}
+
+// Close is what the Mux calls; the harness closes the embedded transport directly.
+func (r *recConn) Close() error {
+	r.once.Do(func() { close(r.closedC) })
+	return r.Conn.Close()
 }
 
 // Write holds the lock across the inner Write: one trunk.Write call is atomic on a
@@ -42,6 +69,9 @@ func (r *recConn) Write(p []byte) (int, error) {
 	r.mu.Lock()
 	defer r.mu.Unlock()
 	if r.broken {
+		if len(p) == 0 {
+			return 0, nil // nothing to send: the empty payload of a frame whose header just fitted
+		}
 		return 0, errCut
 	}
 	if r.budget >= 0 && len(p) > r.budget {
@@ -52,7 +82,9 @@ func (r *recConn) Write(p []byte) (int, error) {
 		r.record(p[:n])
 		r.budget -= n
 		r.broken = true
-		r.Conn.Close()
+		if n == 0 {
+			r.halfClose()
+		}
 		return n, errCut
 	}
 	n, err := r.Conn.Write(p)
@@ -61,7 +93,7 @@ func (r *recConn) Write(p []byte) (int, error) {
 		r.budget -= n
 		if r.budget == 0 {
 			r.broken = true
-			r.Conn.Close()
+			r.halfClose()
 		}
 	}
 	return n, err
@@ -92,7 +124,7 @@ func (r *recConn) Log() []byte {
 func connPair(transport string) (net.Conn, net.Conn, error) {
 	switch transport {
 	case "pipe":
-		a, b := net.Pipe()
+		a, b := memPipe()
 		return a, b, nil
 	case "unix":
 		fds, err := syscall.Socketpair(syscall.AF_UNIX, syscall.SOCK_STREAM|syscall.SOCK_CLOEXEC, 0)
@@ -119,3 +151,39 @@ func connPair(transport string) (net.Conn, net.Conn, error) {
 	}
 	return nil, nil, errors.New("unknown transport " + transport)
 }
+
+// memConn is one end of a synchronous in-memory duplex connection (two io.Pipes).  It behaves
+// like net.Pipe — a Write returns when the other end has consumed the bytes — and can in
+// addition shut down its outgoing direction alone, like a socket.
+type memConn struct {
+	r *io.PipeReader
+	w *io.PipeWriter
+}
+
+type memAddr struct{}
+
+func (memAddr) Network() string { return "mem" }
+func (memAddr) String() string  { return "mem" }
+
+func memPipe() (net.Conn, net.Conn) {
+	r1, w1 := io.Pipe()
+	r2, w2 := io.Pipe()
+	return &memConn{r1, w2}, &memConn{r2, w1}
+}
+
+func (c *memConn) Read(b []byte) (int, error) { return c.r.Read(b) }
+func (c *memConn) Write(b []byte) (int, error) {
+	if len(b) == 0 {
+		// io.Pipe makes even an empty Write wait for a Read; a socket does not (the Mux writes the
+		// empty payload of an empty frame as a Write call of its own)
+		return 0, nil
+	}
+	return c.w.Write(b)
+}
+func (c *memConn) CloseWrite() error                { return c.w.Close() }
+func (c *memConn) Close() error                     { c.w.Close(); return c.r.Close() }
+func (c *memConn) LocalAddr() net.Addr              { return memAddr{} }
+func (c *memConn) RemoteAddr() net.Addr             { return memAddr{} }
+func (c *memConn) SetDeadline(time.Time) error      { return nil }
+func (c *memConn) SetReadDeadline(time.Time) error  { return nil }
+func (c *memConn) SetWriteDeadline(time.Time) error { return nil }
